@@ -41,7 +41,7 @@ def gen_cases(tier, seed):
         drive = {"A": S.field_spec(rng, dev, o, str(rng.choice(["uniform", "ramp", "zero"])), b=float(rng.choice([0.2, 0.6]))),
                  "currents": S.current_spec(rng, dev, o, "const" if nt else "none"),
                  "epsilon": {"kind": str(rng.choice(["one", "spatial", "time", "const"])), "value": -0.5}}
-        cases.append({"layer": "L2", "device": dev, "options": o, "drive": drive, "monitors": ["step"], "cost": 30 if scr else 8})
+        cases.append({"layer": "L2", "device": dev, "options": o, "drive": drive, "monitors": ["step"], "cost": 30 if scr else 8, "solve_twice": bool(k % 2)})
     return cases
 
 
